@@ -86,6 +86,14 @@ class EditHooks(SysHooks):
         if isinstance(n, (ast.ListComp, ast.GeneratorExp)) and len(n.generators) == 1 and isinstance(n.generators[0].target, ast.Name):
             g = n.generators[0]
             it = sm.expr(g.iter, st)
+            # over a short concrete list the comprehension is evaluated element by element
+            if isinstance(it, ListV) and len(it.items) <= 4 and not g.ifs:
+                out = []
+                for item in it.items:
+                    s3 = st.fork()
+                    s3.env[g.target.id] = item
+                    out.append(sm.expr(n.elt, s3))
+                return ListV(out)
             s2 = st.fork()
             s2.env[g.target.id] = Sym(("bound",))
             elt = sm.expr(n.elt, s2)
@@ -101,6 +109,30 @@ class EditHooks(SysHooks):
         if isinstance(f, ast.Attribute) and isinstance(f.value, ast.Attribute) and f.value.attr == "_g" and is_name(f.value.value, "self") and f.attr in GRAPH_CALLS:
             st.events.append(("effect", "GRAPH", f.attr, tuple(vkey(a) for a in args), node.lineno))
             return Sym(("graph", f.attr, tuple(vkey(a) for a in args), node.lineno))
+        # any(C(x) for x in X) / all(..): the condition on one symbolic element of X, as the loop form is read
+        if fname in ("any", "all") and len(node.args) == 1 and isinstance(node.args[0], (ast.GeneratorExp, ast.ListComp)) and len(node.args[0].generators) == 1:
+            g = node.args[0].generators[0]
+            X = g.iter
+            vals = isinstance(X, ast.Call) and isinstance(X.func, ast.Attribute) and X.func.attr in ("values", "keys", "items") and not X.args
+            d = sm.expr(X.func.value, st) if vals else sm.expr(X, st)
+            el = Sym(("elem", vkey(d)))
+            s2 = st.fork()
+            ok = True
+            if vals and X.func.attr == "values" and isinstance(g.target, ast.Name):
+                s2.env[g.target.id] = Sym(("sub", d, el))
+            elif vals and X.func.attr == "items" and isinstance(g.target, ast.Tuple) and len(g.target.elts) == 2 and all(isinstance(e, ast.Name) for e in g.target.elts):
+                s2.env[g.target.elts[0].id] = el
+                s2.env[g.target.elts[1].id] = Sym(("sub", d, el))
+            elif isinstance(g.target, ast.Name):
+                s2.env[g.target.id] = el
+            else:
+                ok = False
+            if ok:
+                c = sm.cond(node.args[0].elt, s2)
+                flt = [sm.cond(x, s2) for x in g.ifs]
+                if fname == "any":
+                    return BoolV(And(*(flt + [c])))
+                return BoolV(Or(*([Not(x) for x in flt] + [c])))
         if fname in ("warn", "warnings.warn"):
             st.events.append(("warn", node.lineno))
             return None if False else Sym(("warn",))
@@ -135,13 +167,22 @@ class EditHooks(SysHooks):
                     st.env[res] = Sym(("FIRST" if not form.endswith("-last") else "LAST", show_f(cf), vkey(ov), vkey(st.env[res])))
                     return [(st, None)]
         # a loop over a short literal tuple / list is unrolled: for x in (a, b): body  ->  body[x:=a]; body[x:=b]
+        unroll = None
         if isinstance(node, ast.For) and not node.orelse and isinstance(node.iter, (ast.Tuple, ast.List)) and 1 <= len(node.iter.elts) <= 4 \
                 and not any(isinstance(e, ast.Starred) for e in node.iter.elts):
+            unroll = list(node.iter.elts)
+        elif isinstance(node, ast.For) and not node.orelse and isinstance(node.iter, ast.Name):
+            # the same when the literal is bound to a local first: entries = ((..), (..)); for a, b in entries
+            v0 = st.env.get(node.iter.id)
+            items = list(v0) if isinstance(v0, tuple) else (list(v0.items) if isinstance(v0, ListV) else None)
+            if items is not None and 1 <= len(items) <= 4 and not any(isinstance(x, ast.AST) for x in items):
+                unroll = items
+        if unroll is not None:
             live, done = [st], []
-            for elt in node.iter.elts:
+            for elt in unroll:
                 nxt = []
                 for s in live:
-                    sm.assign(node.target, sm.expr(elt, s), s, node.lineno)
+                    sm.assign(node.target, sm.expr(elt, s) if isinstance(elt, ast.AST) else elt, s, node.lineno)
                     for s2, status in sm.block(node.body, s):
                         if status is None or status[0] == "continue":
                             nxt.append(s2)
@@ -156,6 +197,43 @@ class EditHooks(SysHooks):
             pair = None
             # for k in D.keys()  ==  for k in D ;  for k, v in D.items()  ==  for k in D with v = D[k]
             vals_of = None
+            if isinstance(node.iter, ast.Call) and isinstance(node.iter.func, ast.Name) and node.iter.func.id == "zip" and len(node.iter.args) == 2 \
+                    and isinstance(node.target, ast.Tuple) and len(node.target.elts) == 2 and all(isinstance(e, ast.Name) for e in node.target.elts):
+                A_, B_ = sm.expr(node.iter.args[0], st), sm.expr(node.iter.args[1], st)
+                if isinstance(A_, ListV) and isinstance(B_, ListV) and len(A_.items) == len(B_.items) <= 4:
+                    live, done = [st], []
+                    for xa, xb in zip(A_.items, B_.items):
+                        nxt = []
+                        for s in live:
+                            s.env[node.target.elts[0].id] = xa
+                            s.env[node.target.elts[1].id] = xb
+                            for s2, status in sm.block(node.body, s):
+                                if status is None or status[0] == "continue":
+                                    nxt.append(s2)
+                                elif status[0] == "break":
+                                    done.append((s2, None))
+                                else:
+                                    done.append((s2, status))
+                        live = nxt
+                    return [(s, None) for s in live] + done
+                ea = Sym(("elem", vkey(A_)))
+                if isinstance(B_, Sym) and isinstance(B_.key, tuple) and B_.key and B_.key[0] == "listcomp" and len(B_.key) == 3 and vkey(B_.key[2]) == vkey(A_):
+                    from .summ import replace_bound
+                    eb = replace_bound(B_.key[1], ea)
+                else:
+                    eb = Sym(("zipelem", vkey(B_), vkey(A_)))
+                st.events.append(("loop", vkey(A_), node.lineno))
+                s0 = st.fork()
+                s0.env[node.target.elts[0].id] = ea
+                s0.env[node.target.elts[1].id] = eb
+                outs = []
+                for s2, status in sm.block(node.body, s0):
+                    if status is None or status[0] in ("continue", "break"):
+                        s2.events.append(("endloop", node.lineno))
+                        outs.append((s2, None))
+                    else:
+                        outs.append((s2, status))
+                return outs
             if isinstance(node.iter, ast.Call) and isinstance(node.iter.func, ast.Attribute) and not node.iter.args and node.iter.func.attr == "values" \
                     and isinstance(node.target, ast.Name):
                 # for x in D.values()  ==  for k in D with x = D[k]
